@@ -5,12 +5,18 @@ PLAN = dict(
     steps=[
         step("footprint-x86", "codegen-x86", "heap-x86", 150, 6000, shards_thorough=12, viol=r"class=heap-footprint"),
         step("footprint-families-x86", "c10-x86", "c10-x86", 0, 0, viol=r"class=heap-footprint"),
+        step("footprint-heapops-x86", "heapops-x86", "heapops-x86", 300, 6000, viol=r"class=heap-footprint"),
     ],
     rule="(i) every corpus program, real x86-64 code on the ISA model, 4 argument tuples: blocks below the final frontier <= peak (counted + deferred) "
-         "blocks at any statement boundary + 2; (ii) allocation-loop families corpus/c10/*.sc (lists, trees, closure chains, shared "
-         "structures, 8-field records built and dropped n times): frontier after n = 8 equals frontier after n = 32. Non-trivial = the program allocates",
-    explanation="theorem: the frontier moves only when both free lists are exhausted (Model/Heap.v acquire_frontier); the quantitative bound and the "
-                "constant-space corollary are checked by execution, not yet proved",
+         "blocks at any statement boundary + 2 (the theorem's constant is 1; the tag slack<n> records the observed difference); (ii) allocation-loop "
+         "families corpus/c10/*.sc (lists, trees, closure chains, shared "
+         "structures, 8-field records built and dropped n times): frontier after n = 8 equals frontier after n = 32. Non-trivial = the program allocates; "
+         "(iii) heapops-x86: random operation sequences with the real code of memory.rs on the ISA model: at the end the frontier is EXACTLY "
+         "peak blocks in use + 1 blocks above the base (peak sampled after every operation)",
+    explanation="theorems (operation traces of the abstract allocator from its initial state): the frontier moves only when both free lists are "
+                "exhausted (acquire_frontier); footprint_bound: frontier blocks <= peak blocks in use + 1; footprint_exact: equality once the peak "
+                "has been attained; loop_space_constant: traces with equal peaks end with equal frontiers. The lifting from traces to programs is "
+                "checked by execution, not proved",
     assumptions=["as C09"],
-    trusted=["coq/Sem/HeapCheck.v", "coq/Sem/X86Sem.v", "coq/Sem/AxSem.v + Sem/AxTrace.v"],
+    trusted=["coq/Sem/HeapCheck.v", "coq/Sem/X86Sem.v", "coq/Sem/AxSem.v + Sem/AxTrace.v", "coq/Model/RunHeapOps.v, harness/src/cmd_heapops.rs"],
 )
